@@ -211,6 +211,8 @@ def rand_term(rng, depth, regdefs, wide, allow_dot):
             b = a + rng.choice([0, 1, 2, 3, 9, 25])
             if 0xD800 <= a < 0xE000 or 0xD800 <= b < 0xE000 or b > 0x10FFFF:
                 a, b = 97, 99
+            if rng.random() < 0.04 and a != b:
+                a, b = b, a          # a reversed range matches nothing; the file is still syntactically valid
             return ('r', a, b)
         if k < 0.9 and allow_dot:
             return ('d',)
